@@ -13,6 +13,12 @@ import ClarabelProofs.Lemmas.EquilZero
 import ClarabelProofs.Lemmas.EquilBounds
 import ClarabelProofs.Lemmas.EquilCones
 import ClarabelProofs.Lemmas.PresolveCollapse
+import ClarabelProofs.Lemmas.EquilGenPow
+import ClarabelProofs.Lemmas.EquilComposite
+import ClarabelProofs.Lemmas.EquilSettings
+import ClarabelProofs.Lemmas.EquilPreserved
+import ClarabelProofs.Lemmas.EquilUnscale
+import ClarabelProofs.Lemmas.EquilZeroP
 
 namespace Clarabel.C10
 open Clarabel Equil
@@ -396,4 +402,408 @@ example : ZeroWhere (⟨2, 2, #[0, 1, 2], #[0, 1], #[3, 0]⟩ : Csc ℝ) (fun _ 
   rw [hE] at he
   simp only [List.mem_cons, List.not_mem_nil, or_false] at he
   rcases he with rfl | rfl <;> simp
+end Clarabel.C10
+
+/-! ## round 3: generalised power cone, composed cone preservation, arbitrary bounds,
+`unscale ∘ scale`, disabled equilibration, `P`/`A` interplay of zero columns -/
+
+namespace Clarabel.C10
+open Clarabel Equil
+
+/-- [R] **cone preserved**, generalised power cone `K_α = {(u,w) : Π uᵢ^{αᵢ} ≥ ‖w‖, u ≥ 0}` of
+any dimensions (`Σ αᵢ = 1`, `αᵢ > 0` — what `GenPowerCone::new` asserts): for `k > 0` the
+model's membership tests `is_primal_feasible` / `is_dual_feasible` answer the same on `k·(u,w)`
+as on `(u,w)` — `Π (k uᵢ)^{2αᵢ} = k^{2Σαᵢ} Π uᵢ^{2αᵢ} = k² Π uᵢ^{2αᵢ}` and `‖k w‖² = k²‖w‖²`.
+So `s ∈ int K_α ⇔ E s ∈ int K_α` and `z ∈ int K_α* ⇔ E⁻¹ z ∈ int K_α*` when `E = k·I` on the
+cone's rows (`uniform_on_genpow`).  Built on C14's characterisations
+`GenPow.isPrimalFeasible_iff` / `isDualFeasible_iff`. -/
+theorem cone_preserved_genpow (k : ℝ) (hk : 0 < k) (al u w : List ℝ) (hlen : al.length = u.length)
+    (ha : GenPow.AllPos al) (hsum : al.sum = 1) :
+    (GenPow.isPrimalFeasible al.toArray ((u ++ w).map (k * ·)).toArray = .ok true ↔
+      GenPow.isPrimalFeasible al.toArray (u ++ w).toArray = .ok true) ∧
+    (GenPow.isDualFeasible al.toArray ((u ++ w).map (k⁻¹ * ·)).toArray = .ok true ↔
+      GenPow.isDualFeasible al.toArray (u ++ w).toArray = .ok true) :=
+  ⟨GenPow.isPrimalFeasible_scale k hk al u w hlen hsum,
+   GenPow.isDualFeasible_scale k⁻¹ (inv_pos.mpr hk) al u w hlen ha hsum⟩
+
+/-- [R] the same for the *closed* cones `K_α` / `K_α*` in their mathematical (square-root free)
+form `u ≥ 0 ∧ ‖w‖² ≤ Π uᵢ^{2αᵢ}` resp. `‖w‖² ≤ Π (uᵢ/αᵢ)^{2αᵢ}`. -/
+theorem cone_preserved_genpow_closed (k : ℝ) (hk : 0 < k) (al u w : List ℝ)
+    (hlen : al.length = u.length) (ha : GenPow.AllPos al) (hsum : al.sum = 1) :
+    (GenPow.Mem al (u.map (k * ·)) (w.map (k * ·)) ↔ GenPow.Mem al u w) ∧
+    (GenPow.MemDual al (u.map (k⁻¹ * ·)) (w.map (k⁻¹ * ·)) ↔ GenPow.MemDual al u w) :=
+  ⟨GenPow.mem_scale k hk al u w hlen hsum,
+   GenPow.memDual_scale k⁻¹ (inv_pos.mpr hk) al u w hlen ha hsum⟩
+
+/-- [R] **`E` restricted to a generalised power cone is a positive multiple of the identity**:
+`GenPowerCone::rectify_equilibration` writes `δᵢ = (1/eᵢ)·mean(e)` for ALL its rows (the `u` rows
+and the `w` rows alike), so after the final rescale every row of the cone carries the same
+scaling `mean(e) > 0`. -/
+theorem uniform_on_genpow (dt : ProblemData ℝ) (pre post : List (ConeT ℝ)) (al : Array ℝ) (dim2 : Nat)
+    (hlen : Cones.numel pre + (ConeT.genpow al dim2).nvars ≤ dt.equilibration.e.size)
+    (hpos : ∀ x ∈ dt.equilibration.e.toList, 0 < x) (hne : 0 < al.size + dim2) :
+    ∃ k : ℝ, 0 < k ∧ ∀ i, i < al.size + dim2 →
+      (finish dt (pre ++ ConeT.genpow al dim2 :: post)).equilibration.e.getD (Cones.numel pre + i) 0 = k := by
+  refine ⟨meanL ((dt.equilibration.e.toList.drop (Cones.numel pre)).take (al.size + dim2)), ?_, ?_⟩
+  · apply meanL_pos
+    · intro x hx
+      exact hpos x (List.mem_of_mem_drop (List.mem_of_mem_take hx))
+    · intro hnil
+      have : ((dt.equilibration.e.toList.drop (Cones.numel pre)).take (al.size + dim2)).length =
+          al.size + dim2 := by
+        simp only [ConeT.nvars] at hlen
+        simp; omega
+      rw [hnil] at this
+      simp at this
+      omega
+  · intro i hi
+    exact uniform_on_cones dt pre post (ConeT.genpow al dim2) rfl hlen
+      (fun x hx => (hpos x hx).ne') i hi
+
+/-- [F] **positive scalings for any positive bounds** (`validate()` does not look at the
+bounds; `min ≤ max` or `min ≤ 1 ≤ max` are NOT needed): for fresh problem data and
+`0 < min`, `0 < max`, everything `equilibrate` returns is positive — all `dⱼ`, all `eᵢ`, `c`. -/
+theorem scalings_positive [Field α] [LinearOrder α] [IsStrictOrderedRing α] [FloatLike α]
+    [LawfulFloatLike α] (dt dt' : ProblemData α) (cones : List (ConeT α)) (s : Settings α)
+    (hlo : 0 < s.minScaling) (hhi : 0 < s.maxScaling)
+    (hfresh : dt.equilibration = EquilData.new dt.n dt.m) (hnum : Cones.numel cones = dt.m)
+    (h : equilibrate dt cones s = .ok dt') :
+    (∀ j, j < dt'.equilibration.d.size → 0 < dt'.equilibration.d.getD j 1) ∧
+    (∀ a ∈ dt'.equilibration.e.toList, 0 < a) ∧ 0 < dt'.equilibration.c := by
+  obtain ⟨hd, hc⟩ := pos_equilibrate dt dt' cones s hlo hhi hfresh h
+  obtain ⟨hu, _, hsz, _⟩ := uniformOn_equilibrate dt dt' cones s hlo hhi hfresh h
+  exact ⟨hd, hu.pos (by simp [hsz, hnum]), hc⟩
+
+/-- [R] **composed cone preservation** — every cone list (all seven kinds), any number of
+passes, any positive bounds.  Let `equilibrate` return `dt'` for fresh problem data; let
+`E = diag(e)`, `E⁻¹ = diag(einv)` be the row scalings it returns.  Then for every `s`, `z` of
+length `m`
+`E s ∈ K ⇔ s ∈ K`  and  `E⁻¹ z ∈ K* ⇔ z ∈ K*`
+where `K = K₁ × … × K_p` is the product cone of the list (`CompositeMem`, cut like `rng_cones`)
+with, per cone, `ConeMem` / `ConeMemDual`: the model's own tests `is_primal_feasible` /
+`is_dual_feasible` for the exponential, power and generalised power cones, `‖v‖² ≤ t², t ≥ 0`
+for the second-order cone, and `xᵀ mat(s) x ≥ 0 ∀x` with `mat = svec_to_mat` (the svec
+representation, C13) for the PSD triangle cone; zero cone `{0}` / dual `ℝⁿ`, nonnegative
+orthant.  (`ValidCones`: `0 < α < 1` for power cones; `αᵢ > 0`, `Σαᵢ = 1` for generalised
+power cones — asserted by the cone constructors.) -/
+theorem cone_preserved_composite (dt dt' : ProblemData ℝ) (cones : List (ConeT ℝ)) (s : Settings ℝ)
+    (hlo : 0 < s.minScaling) (hhi : 0 < s.maxScaling)
+    (hfresh : dt.equilibration = EquilData.new dt.n dt.m) (hv : ValidCones cones)
+    (h : equilibrate dt cones s = .ok dt') (sv zv : List ℝ) (hs : sv.length = dt.m) (hz : zv.length = dt.m) :
+    (CompositeMem ConeMem cones (List.zipWith (· * ·) dt'.equilibration.e.toList sv) ↔
+      CompositeMem ConeMem cones sv) ∧
+    (CompositeMem ConeMemDual cones (List.zipWith (· * ·) dt'.equilibration.einv.toList zv) ↔
+      CompositeMem ConeMemDual cones zv) := by
+  obtain ⟨h1, h2, hs1, hs2⟩ := uniformOn_equilibrate dt dt' cones s hlo hhi hfresh h
+  exact ⟨(compositeMem_scale cones hv _ sv (by simp [hs1, hs]) h1).1,
+    (compositeMem_scale cones hv _ zv (by simp [hs2, hz]) h2).2⟩
+
+section field
+variable [Field α] [LinearOrder α] [IsStrictOrderedRing α] [FloatLike α] [LawfulFloatLike α]
+
+/-- [F] **bounds from `0 < min ≤ max` alone**.  The hypothesis `min ≤ 1 ≤ max` of `bounds` is
+only needed for the *initial* scalings `1`: one pass of the loop puts every `dⱼ`, `eᵢ` into
+`[min, max]` from any positive value (`d·clip(w, min/d, max/d) ∈ [min,max]` for every `d > 0`).
+So with equilibration enabled and at least one pass, all `dⱼ`, `eᵢ` lie in `[min, max]`; the
+cost scaling is in `[min, max]` OR STILL `1` (it is only touched in a pass where `P ≠ 0` and
+`q ≠ 0`; see `cost_unscaled_when_q_zero`). -/
+theorem bounds_any_start (dt dt' : ProblemData α) (cones : List (ConeT α)) (s : Settings α)
+    (hlo : 0 < s.minScaling) (hlh : s.minScaling ≤ s.maxScaling) (hen : s.enable = true)
+    (hit : 1 ≤ s.maxIter) (hfresh : dt.equilibration = EquilData.new dt.n dt.m)
+    (h : equilibrate dt cones s = .ok dt') :
+    AllIn s.minScaling s.maxScaling dt'.equilibration.d ∧
+    AllIn s.minScaling s.maxScaling dt'.equilibration.e ∧
+    (dt'.equilibration.c = 1 ∨
+      (s.minScaling ≤ dt'.equilibration.c ∧ dt'.equilibration.c ≤ s.maxScaling)) := by
+  unfold equilibrate at h
+  rw [if_neg (by simp [hen])] at h
+  split at h
+  · cases h
+  · split at h
+    · cases h
+    · cases h
+      obtain ⟨k, hk⟩ : ∃ k, s.maxIter = k + 1 := ⟨s.maxIter - 1, by omega⟩
+      have hp := Pos.fresh dt hfresh
+      obtain ⟨hd, he⟩ := allIn_ruizLoop_succ hp s hlo hlh k
+      have hc : COk s.minScaling s.maxScaling (ruizLoop s s.maxIter dt) :=
+        COk.ruizLoop hp s hlo hlh (Or.inl (by simp [hfresh, EquilData.new])) _
+      have hcc : (finish (ruizLoop s s.maxIter dt) cones).equilibration.c =
+          (ruizLoop s s.maxIter dt).equilibration.c := by
+        simp only [finish, setInverses, rectifyStep]; split <;> rfl
+      have hee : (finish (ruizLoop s s.maxIter dt) cones).equilibration.e =
+          (rectifyStep (ruizLoop s s.maxIter dt) cones).equilibration.e := rfl
+      rw [hk] at hcc hee ⊢
+      rw [hk] at hc
+      refine ⟨?_, ?_, ?_⟩
+      · rw [finish_d]; exact hd
+      · rw [hee]; exact allIn_rectifyStep _ _ hlo _ cones he
+      · rw [hcc]; exact hc
+
+/-- [F] **`min > max`** (accepted by `validate()`): the interval is empty and the clip
+`clip(w, min/d, max/d)` returns one of its two (inverted) thresholds — after every pass each
+`dⱼ` and `eᵢ` is exactly `min` or exactly `max`. -/
+theorem inverted_bounds_step (d w lo hi : α) (hd : 0 < d) (hlh : hi < lo) :
+    d * Vec.clip w (lo / d) (hi / d) = lo ∨ d * Vec.clip w (lo / d) (hi / d) = hi :=
+  mul_clip_inverted d w lo hi hd hlh
+
+/-- [F] **all-zero rows under arbitrary bounds**: for `0 < min ≤ max`, equilibration enabled and
+at least one pass, an all-zero row of `A` inside a zero / nonnegative cone ends with
+`eᵢ = clip(1, min, max)` exactly (`restScale`) — it is "left unscaled" iff `min ≤ 1 ≤ max`
+(`zero_rows_unscaled_iff`): for `min > 1` the row gets `eᵢ = min`, for `max < 1` it gets `max`. -/
+theorem zero_rows_general (dt dt' : ProblemData α) (pre post : List (ConeT α))
+    (c : ConeT α) (s : Settings α) (hsqrt : sqrt (1:α) = 1) (hlo : 0 < s.minScaling)
+    (hlh : s.minScaling ≤ s.maxScaling) (hen : s.enable = true) (hit : 1 ≤ s.maxIter)
+    (hfresh : dt.equilibration = EquilData.new dt.n dt.m) (hc : c.isScalar = true)
+    (k : Nat) (hk : k < c.nvars) (hz : RowZero dt.A (Cones.numel pre + k))
+    (h : equilibrate dt (pre ++ c :: post) s = .ok dt') :
+    dt'.equilibration.e.getD (Cones.numel pre + k) 1 = restScale s := by
+  unfold equilibrate at h
+  rw [if_neg (by simp [hen])] at h
+  split at h
+  · cases h
+  · rename_i hok
+    split at h
+    · cases h
+    · rename_i hnum
+      cases h
+      have hs : Shapes dt := shapes_of_shapesOk dt (by simpa using hok)
+      have hm : Cones.numel pre + c.nvars + Cones.numel post = dt.m := by
+        have : Cones.numel (pre ++ c :: post) = dt.m := by simpa using hnum
+        rw [Cones.numel_append] at this
+        simp only [Cones.numel] at this
+        omega
+      have hi : Cones.numel pre + k < dt.m := by omega
+      have hz0 : ZRowG s (Cones.numel pre + k) dt :=
+        ⟨hz, by simp [hfresh, EquilData.new, hi], by simp [hfresh, EquilData.new, hi],
+          Or.inl (by simp [hfresh, EquilData.new, Array.getD, hi])⟩
+      obtain ⟨n, hn⟩ : ∃ n, s.maxIter = n + 1 := ⟨s.maxIter - 1, by omega⟩
+      obtain ⟨hval, hie⟩ := hz0.ruizLoop_succ hsqrt hlo hlh n
+      have hInvL := (Inv.init dt hfresh).ruizLoop hs s s.maxIter
+      have hInvF := hInvL.finish hs (pre ++ c :: post)
+      have hsz : Cones.numel pre + k < (finish (ruizLoop s s.maxIter dt) (pre ++ c :: post)).equilibration.e.size := by
+        rw [hInvF.sze]; exact hi
+      have hu := scalar_cones_untouched (ruizLoop s s.maxIter dt) pre post c hc
+        (by rw [hInvL.sze]; omega) k hk
+      have e1 : ∀ (a : Array α) (i : Nat) (x y : α), i < a.size → a.getD i x = a.getD i y := by
+        intro a i x y hi'; simp [Array.getD, hi']
+      rw [e1 _ _ 1 0 hsz, hu]
+      rw [hn] at hInvL ⊢
+      rw [e1 _ _ 0 1 hie]
+      exact hval
+
+/-- [F] the hypothesis `min ≤ 1 ≤ max` of `zero_rows_unscaled` / `zero_cols_unscaled` is the
+weakest one: the value `clip(1, min, max)` an all-zero row / column ends with is `1` exactly
+when `min ≤ 1 ≤ max`. -/
+theorem zero_rows_unscaled_iff (s : Settings α) :
+    restScale s = 1 ↔ (s.minScaling ≤ 1 ∧ 1 ≤ s.maxScaling) :=
+  restScale_eq_one_iff s
+
+/-- [F] **all-zero columns of `[P; A]` under arbitrary bounds**: `dⱼ = clip(1, min, max)`. -/
+theorem zero_cols_general (dt dt' : ProblemData α) (cones : List (ConeT α))
+    (s : Settings α) (hsqrt : sqrt (1:α) = 1) (hlo : 0 < s.minScaling)
+    (hlh : s.minScaling ≤ s.maxScaling) (hen : s.enable = true) (hit : 1 ≤ s.maxIter)
+    (hfresh : dt.equilibration = EquilData.new dt.n dt.m)
+    (j : Nat) (hj : j < dt.n) (hA : ZeroWhere dt.A (fun _ c => c = j))
+    (hP : ZeroWhere dt.P (fun r c => r = j ∨ c = j))
+    (h : equilibrate dt cones s = .ok dt') :
+    dt'.equilibration.d.getD j 1 = restScale s := by
+  have h0 : ZColG s j dt :=
+    ⟨hA, hP, by simp [hfresh, EquilData.new, hj], by simp [hfresh, EquilData.new, hj],
+      Or.inl (by simp [hfresh, EquilData.new, Array.getD, hj])⟩
+  unfold equilibrate at h
+  rw [if_neg (by simp [hen])] at h
+  split at h
+  · cases h
+  · split at h
+    · cases h
+    · cases h
+      obtain ⟨n, hn⟩ : ∃ n, s.maxIter = n + 1 := ⟨s.maxIter - 1, by omega⟩
+      rw [finish_d, hn]
+      exact h0.ruizLoop_succ hsqrt hlo hlh n
+
+/-- [F] **zero column of `A`, nonzero column of `P`**: the KKT column norm that drives `dⱼ` is
+then the norm of column `j` of the symmetric `P` alone, so the column IS scaled — an all-zero
+column of `A` is only "left unscaled" together with an all-zero row/column of `P`
+(`zero_cols_unscaled` needs both, and this is why). -/
+theorem zero_Acol_scaled_by_P (s : Settings α) (dt : ProblemData α) (j : Nat)
+    (hA : ZeroWhere dt.A (fun _ c => c = j)) (hjd : j < dt.equilibration.d.size)
+    (hjw : j < dt.equilibration.dinv.size) :
+    (kktColNorms dt.P dt.A dt.equilibration.dinv dt.equilibration.einv).1.getD j 0 =
+      (colNormsSym dt.P dt.equilibration.dinv).getD j 0 ∧
+    (ruizStep s dt).equilibration.d.getD j 1 = dt.equilibration.d.getD j 1 *
+      Vec.clip ((Vec.rsqrt (unzero (colNormsSym dt.P dt.equilibration.dinv))).getD j 1)
+        (s.minScaling / dt.equilibration.d.getD j 1) (s.maxScaling / dt.equilibration.d.getD j 1) := by
+  refine ⟨kktColNorms_zeroA _ _ _ _ j hA, ?_⟩
+  rw [ruizStep_d, getD_hadamardInPlace _ _ _ _ hjd, stepScalings_zeroA s dt j hA hjd hjw]
+
+/-- [F] **`unscale ∘ scale = id`** with the exact formulas of `variables.rs::unscale`
+(model `Unscale.unscale`, C01): let `equilibrate` return `dt'` (any positive bounds).  For a
+user point `(x, s, z)` (lengths `n`, `m`, `m`) and `τ ≠ 0`, its internal representative
+`x̂ = (x∘dinv)·τ`, `ŝ = (s∘e)·τ`, `ẑ = (z∘einv)·(τc)` (`scaleVars`) is mapped back by
+`unscale` — `x = (x̂∘d)·τ⁻¹`, `z = (ẑ∘e)·(τ⁻¹c⁻¹)`, `s = (ŝ∘einv)·τ⁻¹` — to `(x, s, z)`, `τ = 1`,
+`κ/τ`.  Uses `dinv = 1/d`, `einv = 1/e` (`inverse_scalings`) and positivity
+(`scalings_positive`).  C01's `residual_unscale` / `cost_unscale` are stated on the same
+formulas (`Dense.unX/unS/unZ`). -/
+theorem unscale_scale_id (dt dt' : ProblemData α) (cones : List (ConeT α)) (s : Settings α)
+    (hlo : 0 < s.minScaling) (hhi : 0 < s.maxScaling)
+    (hfresh : dt.equilibration = EquilData.new dt.n dt.m) (hnum : Cones.numel cones = dt.m)
+    (h : equilibrate dt cones s = .ok dt')
+    (x sv z : Array α) (τ κ : α) (hτ : τ ≠ 0) (hx : x.size = dt.n) (hs : sv.size = dt.m)
+    (hz : z.size = dt.m) :
+    Unscale.unscale (scaleVars dt'.equilibration x sv z τ κ) (infoEquil dt'.equilibration) false =
+      { x := x, s := sv, z := z, τ := 1, κ := κ / τ } := by
+  obtain ⟨hd, he, hc⟩ := scalings_positive dt dt' cones s hlo hhi hfresh hnum h
+  have hInv := scaled_data dt dt' cones s hfresh h
+  have hinv : dt'.equilibration.dinv = dt'.equilibration.d.map (fun v => 1 / v) ∧
+      dt'.equilibration.einv = dt'.equilibration.e.map (fun v => 1 / v) := by
+    cases hen : s.enable with
+    | true => exact inverse_scalings dt dt' cones s hen h
+    | false =>
+      have := disabled_is_identity dt cones s hen
+      rw [this] at h
+      cases h
+      constructor <;> simp [hfresh, EquilData.new]
+  refine unscale_scaleVars dt'.equilibration x sv z τ κ hτ hc.ne' hinv.1 hinv.2
+    (fun j hj => (hd j hj).ne') ?_ (by rw [hx, hInv.szd]) (by rw [hs, hInv.sze]) (by rw [hz, hInv.sze])
+  intro i hi
+  have : dt'.equilibration.e.getD i 1 = dt'.equilibration.e[i] := by simp [Array.getD, hi]
+  rw [this]
+  exact (he _ (by simp)).ne'
+
+/-- [F] **the cost scaling can stay outside `[min, max]`** (settings `validate()` accepts):
+when `q = 0` no pass touches `c` (`‖q‖∞ = 0` disables the cost scaling), so `c = 1` whatever
+the bounds — for `min > 1` or `max < 1` the returned `c` violates the documented bound. -/
+theorem cost_unscaled_when_q_zero (dt dt' : ProblemData α) (cones : List (ConeT α)) (s : Settings α)
+    (hfresh : dt.equilibration = EquilData.new dt.n dt.m) (hq : ∀ v ∈ dt.q.toList, v = 0)
+    (h : equilibrate dt cones s = .ok dt') : dt'.equilibration.c = 1 := by
+  unfold equilibrate at h
+  split at h
+  · cases h; simp [hfresh, EquilData.new]
+  · split at h
+    · cases h
+    · split at h
+      · cases h
+      · cases h
+        have hcc : (finish (ruizLoop s s.maxIter dt) cones).equilibration.c =
+            (ruizLoop s s.maxIter dt).equilibration.c := by
+          simp only [finish, setInverses, rectifyStep]; split <;> rfl
+        rw [hcc]
+        exact (QZero.ruizLoop ⟨hq, by simp [hfresh, EquilData.new]⟩ s s.maxIter).c
+
+end field
+
+/-- [S] **disabled is identity, complete**: with `equilibrate_enable = false`, on freshly built
+problem data `equilibrate` succeeds, returns the data unchanged, and ALL scaling vectors are
+identity: `d = dinv = 1ₙ`, `e = einv = 1ₘ`, `c = 1` (every scalar type). -/
+theorem disabled_is_identity_full [Add α] [Sub α] [Mul α] [Div α] [OfNat α 0] [OfNat α 1] [LT α]
+    [DecidableLT α] [BEq α] [FloatLike α]
+    (dt : ProblemData α) (cones : List (ConeT α)) (s : Settings α) (h : s.enable = false)
+    (hfresh : dt.equilibration = EquilData.new dt.n dt.m) :
+    ∃ dt', equilibrate dt cones s = .ok dt' ∧ dt' = dt ∧
+      dt'.equilibration.d = Array.replicate dt.n 1 ∧ dt'.equilibration.dinv = Array.replicate dt.n 1 ∧
+      dt'.equilibration.e = Array.replicate dt.m 1 ∧ dt'.equilibration.einv = Array.replicate dt.m 1 ∧
+      dt'.equilibration.c = 1 ∧
+      dt'.P = dt.P ∧ dt'.A = dt.A ∧ dt'.q = dt.q ∧ dt'.b = dt.b := by
+  refine ⟨dt, disabled_is_identity dt cones s h, rfl, ?_, ?_, ?_, ?_, ?_, rfl, rfl, rfl, rfl⟩ <;>
+    rw [hfresh] <;> rfl
+
+/-! ### non-vacuity (round 3) -/
+
+/-- `cone_preserved_genpow`: `(u,w) = ((4,9),(5))`, `α = (1/2,1/2)` is interior: `25 < 4·9` -/
+example : GenPow.AllPos [(1/2:ℝ), 1/2] ∧ ([(1/2:ℝ), 1/2]).sum = 1 ∧
+    ([(1/2:ℝ), 1/2]).length = ([(4:ℝ), 9]).length := by
+  refine ⟨?_, by norm_num, rfl⟩
+  intro x hx
+  simp at hx
+  rcases hx with rfl | rfl <;> norm_num
+example : GenPow.Mem [(1/2:ℝ), 1/2] [4, 9] [5] := by
+  refine ⟨?_, ?_⟩
+  · intro x hx; simp at hx; rcases hx with rfl | rfl <;> norm_num
+  · simp [GenPow.sumSq, GenPow.prodPhiP]
+    norm_num
+/-- `bounds_any_start` / `zero_rows_general`: settings with `min > 1` that satisfy the
+hypotheses, and the value an all-zero row ends with is `2 ≠ 1` -/
+example : restScale ({ enable := true, maxIter := 3, minScaling := 2, maxScaling := 4 } : Settings ℝ) = 2 := by
+  simp [restScale, Vec.clip]
+example : (0:ℝ) < 2 ∧ (2:ℝ) ≤ 4 ∧ 1 ≤ 3 := by norm_num
+/-- `inverted_bounds_step`: `min = 4 > max = 2`, `d = 1`, `w = 1` gives `4 > max` -/
+example : (1:ℝ) * Vec.clip 1 (4 / 1) (2 / 1) = 4 := by
+  simp [Vec.clip]
+/-- `cone_preserved_composite`: a valid cone list with one cone of every kind -/
+example : ValidCones [ConeT.zero 1, .nonneg 2, .soc 3, .exp, .pow (1/2 : ℝ), .genpow #[1/2, 1/2] 1, .psd 2] := by
+  intro c hc
+  simp at hc
+  rcases hc with rfl | rfl | rfl | rfl | rfl | rfl | rfl <;> simp [ValidCone, GenPow.AllPos] <;> norm_num
+/-- `CompositeMem` is inhabited: `s = (0; 1,1; 5,3,4)` for `z1, n2, q3` -/
+example : CompositeMem ConeMem [ConeT.zero 1, .nonneg 2, .soc 3] [0, 1, 1, 5, 3, 4] := by
+  simp [CompositeMem, ConeMem, ConeT.nvars, SocMem, sumSq]
+  norm_num
+
+/-- a 1-variable problem with one nonnegative row and one second-order cone of dimension 2 over
+ℝ, fresh equilibration data -/
+noncomputable def exData : ProblemData ℝ :=
+  { P := ⟨1, 1, #[0, 1], #[0], #[2]⟩, q := #[1], A := ⟨3, 1, #[0, 2], #[0, 1], #[3, 5]⟩, b := #[4, 1, 0],
+    cones := [.nonneg 1, .soc 2], n := 1, m := 3, equilibration := EquilData.new 1 3,
+    normq := none, normb := none, presolver := none }
+
+/-- the hypotheses of `cone_preserved_composite`, `scalings_positive`, `bounds_any_start`,
+`zero_rows_general`, `unscale_scale_id` are simultaneously satisfiable with equilibration
+ENABLED and bounds that exclude 1 (`min = 2`, `max = 4`, three passes): fresh data, a valid cone
+list covering the rows, and `equilibrate` succeeds; row 2 of `A` is all-zero. -/
+example : exData.equilibration = EquilData.new exData.n exData.m ∧
+    Cones.numel exData.cones = exData.m ∧ ValidCones exData.cones ∧
+    (∃ dt', equilibrate exData exData.cones ⟨true, 3, 2, 4⟩ = .ok dt') ∧
+    (0:ℝ) < 2 ∧ (2:ℝ) ≤ 4 := by
+  refine ⟨rfl, rfl, ?_, ⟨finish (ruizLoop ⟨true, 3, 2, 4⟩ 3 exData) exData.cones, ?_⟩, by norm_num, by norm_num⟩
+  · intro c hc
+    simp [exData] at hc
+    rcases hc with rfl | rfl <;> trivial
+  · have h1 : shapesOk exData = true := by
+      simp [shapesOk, Csc.wellFormed, Csc.colIdx, Csc.anyAdjacent, exData, EquilData.new]
+    unfold equilibrate
+    simp only [Bool.not_true, Bool.false_eq_true, ↓reduceIte, h1]
+    rfl
+
+/-- [R] **composed cone preservation with `0 < max` alone** — no condition at all on
+`equilibrate_min_scaling` (zero, negative, above `max`: `validate()` accepts them all).  Over ℝ
+the step of a pass is `clip(1/√norm, min/d, max/d)` with `norm > 0`, positive as soon as
+`max/d > 0`; so `E` is still positive and uniform on every non-scalar cone and maps the
+product cone onto itself. -/
+theorem cone_preserved_composite_any_min (dt dt' : ProblemData ℝ) (cones : List (ConeT ℝ)) (s : Settings ℝ)
+    (hhi : 0 < s.maxScaling)
+    (hfresh : dt.equilibration = EquilData.new dt.n dt.m) (hv : ValidCones cones)
+    (h : equilibrate dt cones s = .ok dt') (sv zv : List ℝ) (hs : sv.length = dt.m) (hz : zv.length = dt.m) :
+    (CompositeMem ConeMem cones (List.zipWith (· * ·) dt'.equilibration.e.toList sv) ↔
+      CompositeMem ConeMem cones sv) ∧
+    (CompositeMem ConeMemDual cones (List.zipWith (· * ·) dt'.equilibration.einv.toList zv) ↔
+      CompositeMem ConeMemDual cones zv) := by
+  obtain ⟨h1, h2, hs1, hs2⟩ := uniformOn_equilibrate_hi dt dt' cones s
+    (fun x hx => Real.sqrt_pos.mpr hx) hhi hfresh h
+  exact ⟨(compositeMem_scale cones hv _ sv (by simp [hs1, hs]) h1).1,
+    (compositeMem_scale cones hv _ zv (by simp [hs2, hz]) h2).2⟩
+
+/-- [R] **positive scalings with `0 < max` alone** (over ℝ): all `dⱼ`, `eᵢ`, `c` are positive
+whatever `equilibrate_min_scaling` is. -/
+theorem scalings_positive_any_min (dt dt' : ProblemData ℝ) (cones : List (ConeT ℝ)) (s : Settings ℝ)
+    (hhi : 0 < s.maxScaling)
+    (hfresh : dt.equilibration = EquilData.new dt.n dt.m) (hnum : Cones.numel cones = dt.m)
+    (h : equilibrate dt cones s = .ok dt') :
+    (∀ j, j < dt'.equilibration.d.size → 0 < dt'.equilibration.d.getD j 1) ∧
+    (∀ a ∈ dt'.equilibration.e.toList, 0 < a) ∧ 0 < dt'.equilibration.c := by
+  have hsq : ∀ x : ℝ, 0 < x → 0 < sqrt x := fun x hx => Real.sqrt_pos.mpr hx
+  obtain ⟨hd, hc⟩ := pos_equilibrate_hi dt dt' cones s hsq hhi hfresh h
+  obtain ⟨hu, _, hsz, _⟩ := uniformOn_equilibrate_hi dt dt' cones s hsq hhi hfresh h
+  exact ⟨hd, hu.pos (by simp [hsz, hnum]), hc⟩
+
+/-- `cone_preserved_composite_any_min`: settings with `min = 0` satisfy the hypothesis, and
+`equilibrate` succeeds on `exData` with them -/
+example : (0:ℝ) < (⟨true, 3, 0, 4⟩ : Settings ℝ).maxScaling ∧
+    ∃ dt', equilibrate exData exData.cones ⟨true, 3, 0, 4⟩ = .ok dt' := by
+  refine ⟨by norm_num, finish (ruizLoop ⟨true, 3, 0, 4⟩ 3 exData) exData.cones, ?_⟩
+  have h1 : shapesOk exData = true := by
+    simp [shapesOk, Csc.wellFormed, Csc.colIdx, Csc.anyAdjacent, exData, EquilData.new]
+  unfold equilibrate
+  simp only [Bool.not_true, Bool.false_eq_true, ↓reduceIte, h1]
+  rfl
+
 end Clarabel.C10
